@@ -359,8 +359,16 @@ def judge(ck, schema, sdl, classes, text, opname, label, doc, a0, a1, a2):
                          f"to_exec differs from gen_exec.enc_doc on {text[:160]!r}: model {'undefined' if got is None else 'another tree'}",
                          dict(replay, relation="Valid/ToExec.to_exec = gen_exec.enc_doc (float ratios ignored)"))
     # silent => well_typed
-    if a2 and len(a2) == 6:
-        m_silent, m_extra, m_def, m_wt, m_sok, m_locdef = a2
+    if a2 and len(a2) == 9:
+        m_silent, m_extra, m_def, m_wt, m_sok, m_hyp, m_allsilent, m_concl, m_locdef = a2
+        ck.count("schema_hypotheses_hold" if m_hyp == 1 else "schema_hypotheses_fail")
+        if m_hyp == 1 and m_sok == 1 and m_allsilent == 1 and m_concl != 2:
+            ck.count("theorem_instances")
+            if m_concl != 1:
+                ck.violation(f"theorem-instance:{text!r}",
+                             f"extracted model: all rules silent and the schema hypotheses hold but the static typing "
+                             f"conclusion of C13_rules_static is false on {text[:160]!r}",
+                             dict(replay, relation="theorem instance C13_rules_static on the extracted model"))
         if m_locdef:
             ck.count("finding_location_default_ignored_in_fragment", m_locdef)
             ck.count("docs_with_finding_location_default_ignored_in_fragment")
